@@ -887,6 +887,7 @@ func rulesC09(w *World, r *Report) {
 	if hasN {
 		r.note("the string encoder emits N for the empty string: a nil element or key is a value")
 		w.ruleLoopExits(r, "C09.R3 null is a value, not a terminator", false)
+		w.ruleEveryValueStored(r, "C09.R3 null is a value, not dropped")
 		// the string decoder accepts N
 		if c.Dec != nil {
 			run := w.decTable(c.Dec).at('N')
